@@ -1,0 +1,184 @@
+//! C35: expose `ResolvedAccountPolicy::fold_from`, the entry -> `AccountPolicy`
+//! conversion (defaults) and `load_account_policy` through plain-value mirrors.
+
+use crate::idm::accountpolicy::{AccountPolicy, ResolvedAccountPolicy};
+use crate::idm::group::load_account_policy;
+use crate::prelude::*;
+use crate::value::CredentialType;
+use base64::{engine::general_purpose, Engine as _};
+use webauthn_rs::prelude::AttestationCaList;
+
+/// One attestation CA: `kid` is the first byte of the 32 byte key id (the rest is zero),
+/// `devs` are (aaguid, english description) in ascending aaguid order.
+#[derive(Debug, Clone, PartialEq, Eq)]
+pub struct HookCa {
+    pub kid: u8,
+    pub blanket: bool,
+    pub devs: Vec<(u128, String)>,
+}
+
+/// Mirror of the crate-private `AccountPolicy`.
+#[derive(Debug, Clone, PartialEq, Eq)]
+pub struct HookPolicy {
+    pub privilege_expiry: u32,
+    pub authsession_expiry: u32,
+    pub pw_min_length: u32,
+    /// `CredentialType as u16`
+    pub credential_policy: u16,
+    pub ca: Option<Vec<HookCa>>,
+    pub limit_search_max_filter_test: Option<u64>,
+    pub limit_search_max_results: Option<u64>,
+    pub allow_primary_cred_fallback: Option<bool>,
+}
+
+/// Mirror of the crate-private `ResolvedAccountPolicy`.
+#[derive(Debug, Clone, PartialEq, Eq)]
+pub struct HookResolved {
+    pub privilege_expiry: u32,
+    pub authsession_expiry: u32,
+    pub pw_min_length: u32,
+    pub pw_max_length: u32,
+    pub credential_policy: u16,
+    pub ca: Option<Vec<HookCa>>,
+    pub limit_search_max_filter_test: Option<u64>,
+    pub limit_search_max_results: Option<u64>,
+    pub allow_primary_cred_fallback: Option<bool>,
+}
+
+// Yubico U2F Root CA Serial 457200631 (public certificate, same as in the unit test of
+// accountpolicy.rs). Only used as a syntactically valid certificate body: the key id of
+// every CA is given explicitly in the serialised form.
+const CA_PEM_BODY: &str = "MIIDHjCCAgagAwIBAgIEG0BT9zANBgkqhkiG9w0BAQsFADAuMSwwKgYDVQQDEyNZ\
+dWJpY28gVTJGIFJvb3QgQ0EgU2VyaWFsIDQ1NzIwMDYzMTAgFw0xNDA4MDEwMDAw\
+MDBaGA8yMDUwMDkwNDAwMDAwMFowLjEsMCoGA1UEAxMjWXViaWNvIFUyRiBSb290\
+IENBIFNlcmlhbCA0NTcyMDA2MzEwggEiMA0GCSqGSIb3DQEBAQUAA4IBDwAwggEK\
+AoIBAQC/jwYuhBVlqaiYWEMsrWFisgJ+PtM91eSrpI4TK7U53mwCIawSDHy8vUmk\
+5N2KAj9abvT9NP5SMS1hQi3usxoYGonXQgfO6ZXyUA9a+KAkqdFnBnlyugSeCOep\
+8EdZFfsaRFtMjkwz5Gcz2Py4vIYvCdMHPtwaz0bVuzneueIEz6TnQjE63Rdt2zbw\
+nebwTG5ZybeWSwbzy+BJ34ZHcUhPAY89yJQXuE0IzMZFcEBbPNRbWECRKgjq//qT\
+9nmDOFVlSRCt2wiqPSzluwn+v+suQEBsUjTGMEd25tKXXTkNW21wIWbxeSyUoTXw\
+LvGS6xlwQSgNpk2qXYwf8iXg7VWZAgMBAAGjQjBAMB0GA1UdDgQWBBQgIvz0bNGJ\
+hjgpToksyKpP9xv9oDAPBgNVHRMECDAGAQH/AgEAMA4GA1UdDwEB/wQEAwIBBjAN\
+BgkqhkiG9w0BAQsFAAOCAQEAjvjuOMDSa+JXFCLyBKsycXtBVZsJ4Ue3LbaEsPY4\
+MYN/hIQ5ZM5p7EjfcnMG4CtYkNsfNHc0AhBLdq45rnT87q/6O3vUEtNMafbhU6kt\
+hX7Y+9XFN9NpmYxr+ekVY5xOxi8h9JDIgoMP4VB1uS0aunL1IGqrNooL9mmFnL2k\
+LVVee6/VR6C5+KSTCMCWppMuJIZII2v9o4dkoZ8Y7QRjQlLfYzd3qGtKbw7xaF1U\
+sG/5xUb/Btwb2X2g4InpiB/yt/3CpQXpiWX/K4mBvUKiGn05ZsqeY1gx4g0xLBqc\
+U9psmyPzK+Vsgw2jeRQ5JlKDyqE0hebfC1tvFu0CCrJFcw==";
+
+/// Build a real `AttestationCaList` through its serde form (the same way the server
+/// loads one from the database or from an admin supplied JSON value).
+pub fn build_ca_list(spec: &[HookCa]) -> AttestationCaList {
+    let der = general_purpose::STANDARD
+        .decode(CA_PEM_BODY)
+        .expect("embedded certificate is valid base64");
+    let ca_b64 = general_purpose::URL_SAFE_NO_PAD.encode(der);
+    let mut cas = serde_json::Map::new();
+    for ca in spec {
+        let mut kid = [0u8; 32];
+        kid[0] = ca.kid;
+        let mut aaguids = serde_json::Map::new();
+        for (aaguid, en) in &ca.devs {
+            aaguids.insert(
+                Uuid::from_u128(*aaguid).to_string(),
+                serde_json::json!({ "en": en, "localised": {} }),
+            );
+        }
+        cas.insert(
+            general_purpose::URL_SAFE_NO_PAD.encode(kid),
+            serde_json::json!({
+                "ca": ca_b64,
+                "aaguids": aaguids,
+                "blanket_allow": ca.blanket,
+            }),
+        );
+    }
+    serde_json::from_value(serde_json::json!({ "cas": cas }))
+        .expect("serialised attestation ca list is valid")
+}
+
+/// Read an `AttestationCaList` back into plain values (BTreeMap order = ascending).
+pub fn read_ca_list(list: &AttestationCaList) -> Vec<HookCa> {
+    list.cas()
+        .iter()
+        .map(|(kid, ca)| HookCa {
+            kid: kid.first().copied().unwrap_or(u8::MAX),
+            blanket: ca.blanket_allow(),
+            devs: ca
+                .aaguids()
+                .iter()
+                .map(|(aaguid, dev)| (aaguid.as_u128(), dev.description_en().to_string()))
+                .collect(),
+        })
+        .collect()
+}
+
+fn to_policy(p: &HookPolicy) -> AccountPolicy {
+    AccountPolicy::verif_new(
+        p.privilege_expiry,
+        p.authsession_expiry,
+        p.pw_min_length,
+        CredentialType::try_from(p.credential_policy).expect("valid credential type"),
+        p.ca.as_ref().map(|c| build_ca_list(c)),
+        p.limit_search_max_filter_test,
+        p.limit_search_max_results,
+        p.allow_primary_cred_fallback,
+    )
+}
+
+fn from_policy(p: &AccountPolicy) -> HookPolicy {
+    let (
+        privilege_expiry,
+        authsession_expiry,
+        pw_min_length,
+        credential_policy,
+        ca,
+        limit_search_max_filter_test,
+        limit_search_max_results,
+        allow_primary_cred_fallback,
+    ) = p.verif_parts();
+    HookPolicy {
+        privilege_expiry,
+        authsession_expiry,
+        pw_min_length,
+        credential_policy: credential_policy as u16,
+        ca: ca.map(read_ca_list),
+        limit_search_max_filter_test,
+        limit_search_max_results,
+        allow_primary_cred_fallback,
+    }
+}
+
+fn from_resolved(r: &ResolvedAccountPolicy) -> HookResolved {
+    HookResolved {
+        privilege_expiry: r.privilege_expiry(),
+        authsession_expiry: r.authsession_expiry(),
+        pw_min_length: r.pw_min_length(),
+        pw_max_length: r.pw_max_length(),
+        credential_policy: r.credential_policy() as u16,
+        ca: r.webauthn_attestation_ca_list().map(read_ca_list),
+        limit_search_max_filter_test: r.limit_search_max_filter_test(),
+        limit_search_max_results: r.limit_search_max_results(),
+        allow_primary_cred_fallback: r.allow_primary_cred_fallback(),
+    }
+}
+
+/// Call the real `ResolvedAccountPolicy::fold_from` on the policies in the given order.
+pub fn fold_from(pols: &[HookPolicy]) -> HookResolved {
+    let v: Vec<AccountPolicy> = pols.iter().map(to_policy).collect();
+    from_resolved(&ResolvedAccountPolicy::fold_from(v.into_iter()))
+}
+
+/// The real `From<&EntrySealedCommitted> for Option<AccountPolicy>`.
+pub fn policy_from_entry(e: &EntrySealedCommitted) -> Option<HookPolicy> {
+    let p: Option<AccountPolicy> = e.into();
+    p.as_ref().map(from_policy)
+}
+
+/// The real `idm::group::load_account_policy` (memberof -> search -> convert -> fold).
+pub fn load_policy(
+    e: &EntrySealedCommitted,
+    qs: &mut QueryServerReadTransaction<'_>,
+) -> Result<HookResolved, OperationError> {
+    load_account_policy(e, qs).map(|r| from_resolved(&r))
+}
